@@ -44,8 +44,9 @@ def reg(pid, **kw):
 
 
 reg("C01",
-    gen=lambda seed, tier: P.gen_damage_programs(G.Rng(seed), N(tier, 60, 600), big=N(tier, 0.02, 0.05)),
-    monitors=[P.mon_checked_retrieval],
+    gen=lambda seed, tier: (P.gen_damage_programs(G.Rng(seed), N(tier, 60, 600), big=N(tier, 0.02, 0.05)) +
+                            P.gen_extraction_programs(G.Rng(seed + 1001), N(tier, 30, 300))),
+    monitors=[lambda rr: P.mon_extraction(rr) if "steps" in rr.prog.tags else P.mon_checked_retrieval(rr)],
     nontrivial=lambda rr: has(rr, ("read", "read_hash", "rcheck", "copy", "copy_hash", "hard_link", "hard_link_hash"),
                               ("err integrity", "ok")),
     rule="programs: two entries written (random algorithm, size incl. mmap/buffer edges), one damage of the victim's "
@@ -54,10 +55,15 @@ reg("C01",
          "non-trivial = at least one checked retrieval answered ok or integrity error")
 
 reg("C18",
-    gen=lambda seed, tier: P.gen_damage_programs(G.Rng(seed + 18), N(tier, 60, 600), big=N(tier, 0.02, 0.05)),
-    monitors=[P.mon_checked_retrieval],
+    gen=lambda seed, tier: (P.gen_damage_programs(G.Rng(seed + 18), N(tier, 60, 600), big=N(tier, 0.02, 0.05)) +
+                            P.gen_extraction_programs(G.Rng(seed + 181), N(tier, 60, 600))),
+    monitors=[lambda rr: P.mon_extraction(rr) if "steps" in rr.prog.tags else P.mon_checked_retrieval(rr)],
     nontrivial=lambda rr: has(rr, ("copy", "copy_hash", "hard_link", "hard_link_hash", "reflink"), ()),
-    rule="as C01, judged on the extraction calls and the destination file afterwards")
+    rule="as C01, judged on the extraction calls and the destination file afterwards; plus extraction SEQUENCES over "
+         "pristine content that reuse destinations (the same path twice, a path that already is a hard link of the content, "
+         "a longer old file), name a destination whose parent directory does not exist, and follow a remove_hash: ok => the "
+         "destination holds exactly the stored bytes (and the count), missing content / parent => error and nothing created, "
+         "the cache entries still read back")
 
 reg("C02",
     gen=lambda seed, tier: P.gen_roundtrip_programs(G.Rng(seed + 2), N(tier, 120, 1500), big=N(tier, 0.03, 0.08)),
@@ -189,8 +195,9 @@ reg("C19",
          "metadata in both flavours, node kind, target unchanged, then target modified / removed and reads again")
 
 reg("C15",
-    gen=lambda seed, tier: P.gen_confine_programs(G.Rng(seed + 15), N(tier, 40, 400)),
-    monitors=[P.mon_confine],
+    gen=lambda seed, tier: (P.gen_confine_programs(G.Rng(seed + 15), N(tier, 40, 400)) +
+                            P.gen_extraction_programs(G.Rng(seed + 153), N(tier, 30, 300))),
+    monitors=[lambda rr: P.mon_extraction(rr) if "steps" in rr.prog.tags else P.mon_confine(rr)],
     nontrivial=lambda rr: True,
     rule="programs over 4 hostile keys (path-like, '..', NUL, controls, case / normalisation variants, 4 KiB): writes, "
          "every read-only call, a copy, removals; the directories next to the cache and the cache itself are dumped "
@@ -224,6 +231,7 @@ def gen_content_programs(seed, tier):
     for p in progs:
         p.ops.append("dump c0/content-v2")
     progs += P.gen_size_matrix(G.Rng(seed + 34))
+    progs += P.gen_extraction_programs(G.Rng(seed + 35), N(tier, 30, 300))      # extractions never harm the content area
     return progs
 
 
@@ -239,7 +247,7 @@ def mon_content_valid(rr):
 
 reg("C03",
     gen=gen_content_programs,
-    monitors=[mon_content_valid, P.mon_size_matrix],
+    monitors=[mon_content_valid, P.mon_size_matrix, lambda rr: P.mon_extraction(rr) if "steps" in rr.prog.tags else []],
     extra=lambda seed, tier, flavours: merge(
         LG.leg_skeleton(P.gen_roundtrip_programs(G.Rng(seed + 31), N(tier, 10, 60)), flavours[0]),
         LG.leg_kill_sweep(LG.kill_cases(G.Rng(seed + 32), N(tier, 4, 24)), flavours[0], max_points=N(tier, 14, 200)),
